@@ -194,6 +194,18 @@ func buildWrites(fn *ssa.Function) writesIndex {
 				r, p := RootPath(x.Common().Args[0])
 				idx[r] = append(idx[r], write{r, p, x.Common().Args[1:], in})
 			}
+			// bytes.Buffer / strings.Builder style accumulators: what is written into them is their content
+			if f := CallObj(x); f != nil && f.Pkg() != nil && len(x.Common().Args) > 1 {
+				switch f.Pkg().Path() {
+				case "bytes", "strings", "bufio":
+					if n := RecvNamed(f); n != nil && (n.Obj().Name() == "Buffer" || n.Obj().Name() == "Builder" || n.Obj().Name() == "Writer") {
+						if strings.HasPrefix(f.Name(), "Write") || f.Name() == "ReadFrom" {
+							r, p := RootPath(x.Common().Args[0])
+							idx[r] = append(idx[r], write{r, p, x.Common().Args[1:], in})
+						}
+					}
+				}
+			}
 			// json.Unmarshal / gob Decode / getItem(into): result written from arg — handled by rules
 		}
 	})
@@ -205,7 +217,11 @@ func buildWrites(fn *ssa.Function) writesIndex {
 
 // Deriv is the backward value-flow closure of one or more values.
 type Deriv struct {
-	p      *Prog
+	p       *Prog
+	shallow bool
+	stop    map[ssa.Value]bool
+	home   *ssa.Function
+	upSeen map[*ssa.Parameter]bool
 	depth  int
 	seen   map[ssa.Value]bool
 	Nodes  []ssa.Value
@@ -216,8 +232,23 @@ type Deriv struct {
 }
 
 // Derives computes the closure of v with interprocedural depth (0 = intraprocedural).
-func (p *Prog) Derives(depth int, vs ...ssa.Value) *Deriv {
-	d := &Deriv{p: p, depth: depth, seen: map[ssa.Value]bool{}, writes: map[*ssa.Function]writesIndex{}, binds: map[*ssa.Parameter][]ssa.Value{}}
+func (p *Prog) Derives(depth int, vs ...ssa.Value) *Deriv { return p.DerivesIn(nil, depth, vs...) }
+
+// DerivesIn is Derives with the function under analysis given explicitly (used when the start values
+// live in a helper of that function: their parameters are then bound at the helper's call sites).
+func (p *Prog) DerivesIn(home *ssa.Function, depth int, vs ...ssa.Value) *Deriv {
+	for home != nil && home.Parent() != nil {
+		home = home.Parent()
+	}
+	d := &Deriv{home: home, p: p, depth: depth, seen: map[ssa.Value]bool{}, writes: map[*ssa.Function]writesIndex{}, binds: map[*ssa.Parameter][]ssa.Value{}, upSeen: map[*ssa.Parameter]bool{}}
+	for _, v := range vs {
+		if d.home == nil && v != nil {
+			d.home = parentFn(v)
+			for d.home != nil && d.home.Parent() != nil {
+				d.home = d.home.Parent()
+			}
+		}
+	}
 	for _, v := range vs {
 		d.visit(v, depth)
 	}
@@ -296,10 +327,47 @@ func (d *Deriv) visit(v ssa.Value, depth int) {
 	}
 	d.seen[v] = true
 	d.Nodes = append(d.Nodes, v)
+	if d.stop[v] {
+		return
+	}
+	shallow := d.shallow
+	d.shallow = false
 	switch x := v.(type) {
 	case *ssa.Parameter:
 		for _, b := range d.binds[x] {
 			d.visit(b, depth)
+		}
+		// parameters of helpers reached by inlining (depth > 0 brought us into the callee) are bound above; a
+		// parameter of a function other than the one under analysis is additionally bound at its static call
+		// sites (preferring those inside the function under analysis), so that a block extracted into a helper
+		// keeps its provenance.
+		if fn := x.Parent(); fn != nil && fn.Parent() == nil && d.home != nil && fn != d.home && !d.upSeen[x] && len(d.binds[x]) == 0 {
+			d.upSeen[x] = true
+			idx := -1
+			for i, prm := range fn.Params {
+				if prm == x {
+					idx = i
+				}
+			}
+			sites := d.p.StaticSites(fn)
+			var local []ssa.CallInstruction
+			for _, s := range sites {
+				top := s.Parent()
+				for top.Parent() != nil {
+					top = top.Parent()
+				}
+				if top == d.home {
+					local = append(local, s)
+				}
+			}
+			if len(local) > 0 {
+				sites = local
+			}
+			for _, s := range sites {
+				if idx >= 0 && idx < len(s.Common().Args) {
+					d.visit(s.Common().Args[idx], depth)
+				}
+			}
 		}
 		// parameters of anonymous functions: bound at their (static) call
 		// sites in the enclosing functions (go func(a){...}(x)).
@@ -321,7 +389,9 @@ func (d *Deriv) visit(v ssa.Value, depth int) {
 			}
 		}
 		// pointer parameter content written in this function
-		d.visitContent(x, "", depth)
+		if !shallow {
+			d.visitContent(x, "", depth)
+		}
 	case *ssa.FreeVar:
 		// bound value in the enclosing function
 		fn := x.Parent()
@@ -337,7 +407,9 @@ func (d *Deriv) visit(v ssa.Value, depth int) {
 				})
 			}
 		}
-		d.visitContent(x, "", depth)
+		if !shallow {
+			d.visitContent(x, "", depth)
+		}
 	case *ssa.Const, *ssa.Global, *ssa.Builtin, *ssa.Function:
 	case *ssa.Alloc:
 		d.visitContent(x, "", depth)
@@ -424,6 +496,12 @@ func (d *Deriv) visitRootShallow(root ssa.Value, depth int) {
 			d.seen[root] = true
 			d.Nodes = append(d.Nodes, root)
 		}
+	case *ssa.Parameter, *ssa.FreeVar:
+		// reached through a field path: bind the parameter, but do not pull in what is written
+		// to its *other* fields in this function
+		d.shallow = true
+		d.visit(root, depth)
+		d.shallow = false
 	default:
 		d.visit(root, depth)
 	}
@@ -614,4 +692,28 @@ func (d *Deriv) ConstStrings() []string {
 		}
 	}
 	return out
+}
+
+// DerivesDeep is Derives with interprocedural depth 3 (helpers are followed both into their bodies and, for
+// their parameters, back to their call sites).
+func (p *Prog) DerivesDeep(vs ...ssa.Value) *Deriv { return p.Derives(3, vs...) }
+
+// DerivesStop is Derives that records but does not expand the given values.
+func (p *Prog) DerivesStop(stop []ssa.Value, depth int, vs ...ssa.Value) *Deriv {
+	d := &Deriv{p: p, depth: depth, seen: map[ssa.Value]bool{}, writes: map[*ssa.Function]writesIndex{}, binds: map[*ssa.Parameter][]ssa.Value{}, upSeen: map[*ssa.Parameter]bool{}, stop: map[ssa.Value]bool{}}
+	for _, s := range stop {
+		d.stop[s] = true
+	}
+	for _, v := range vs {
+		if d.home == nil && v != nil {
+			d.home = parentFn(v)
+			for d.home != nil && d.home.Parent() != nil {
+				d.home = d.home.Parent()
+			}
+		}
+	}
+	for _, v := range vs {
+		d.visit(v, depth)
+	}
+	return d
 }
